@@ -1466,3 +1466,8 @@ package yqlib
 //@   ensures @numbers-agree-by-value {C15} implies((lhs.Tag == "!!float" || rhs.Tag == "!!float") && (lhs.Tag == "!!int" || lhs.Tag == "!!float") && (rhs.Tag == "!!int" || rhs.Tag == "!!float") && result1 == nil, result0 == relHolds(prefs, rsign(fltOf(lhs.Value) - fltOf(rhs.Value))))
 //@   ensures @null-sorts-first {C15} implies(lhs.Tag == "!!null" && (rhs.Tag == "!!int" || rhs.Tag == "!!float" || rhs.Tag == "!!bool"), result1 == nil && result0 == relHolds(prefs, 0 - 1))
 //@   ensures @strings-that-look-like-times-compare-as-strings {C15} implies(lhs.Tag == "!!str" && rhs.Tag == "!!str" && context.datetimeLayout == "" && result1 == nil, result0 == relHolds(prefs, strcmp(lhs.Value, rhs.Value)))
+
+// operation.go: a literal's operation and node are made for that one occurrence (C18)
+//@ func createValueOperation
+//@   props C18 C11
+//@   ensures @an-operation-of-its-own {C18} result != nil && fresh(result) && result.OperationType == valueOpType && result.StringValue == stringValue && result.CandidateNode != nil && fresh(result.CandidateNode)
